@@ -16,7 +16,7 @@ CLAIMED = {
     "C01": ("online invariant monitor: independent shadow occupancy model re-checked after every mutation of a live worker, during full simulations and during direct-drive runs under a hostile (chaos) policy that also answers with batches",
             "held on the K generated worlds run end to end with the shadow-cluster monitor attached; every live place/remove/load/evict and every utilization row was compared with an occupancy model that shares no code with the ledger",
             "DESIGN.md 4/C01", E2E_NOTE),
-    "C02": ("online per-task ordering automaton on Task.release/start/finish hooks during full simulations and direct-drive chaos-policy runs (multi-timestamp graphs, children with their own release times)",
+    "C02": ("online per-task ordering automaton on Task.release/start/finish hooks during full simulations and direct-drive chaos-policy runs (multi-timestamp graphs, children with their own release times, policies that take simulated time to answer so that decisions arrive stale)",
             "held on the K generated worlds: every observed start was checked against the harness' own record of releases and parent completions (description graph)",
             "DESIGN.md 4/C02", E2E_NOTE),
     "C03": ("online trace monitor: clock, event-queue order at every pop, completion-time automaton against the decision recorded at the policy boundary (the Placements schedule() returned), first-placement-attempt oracle with the shadow fit test; full simulations and direct-drive chaos-policy runs",
@@ -25,7 +25,7 @@ CLAIMED = {
     "C05": ("bounded-progress watchdog (logical, not wall-clock) + end-state checker over full simulations",
             "liveness restated as bounded progress: every generated run reached SIMULATOR_END by loop_timeout without exceeding the no-progress bounds; feasible work-conserving worlds finished all work",
             "DESIGN.md 4/C05", E2E_NOTE + " 'Eventually' is only observable as N steps without progress."),
-    "C06": ("online state-machine monitor on every Task mutator (legal transitions, unschedule restores the pre-scheduling state) + state scan after every handled event + offline closure check of cancellations; full simulations and direct-drive runs under a chaos policy that re-plans, retracts and cancels",
+    "C06": ("online state-machine monitor on every Task mutator (legal transitions, unschedule restores the pre-scheduling state) + state scan after every handled event + offline closure check of cancellations; full simulations and direct-drive runs under a chaos policy that re-plans, retracts and cancels; plus the repository's own pinned tests run with this property's context-free monitors attached (vmon/suitemon.py)",
             "held on the K generated worlds with cancellation (deadline enforcement, drop_skipped_tasks, conditionals)",
             "DESIGN.md 4/C06", E2E_NOTE),
     "C07": ("hook on TaskGraph.notify_task_completion (return value, probability snapshot) + offline branch census per conditional block",
@@ -34,16 +34,16 @@ CLAIMED = {
     "C08": ("offline trace checker: every CSV row and the end-of-run summary compared column by column with the harness' event log; CSVReader round trip",
             "held on the K generated traces, apart from the listed known findings",
             "DESIGN.md 4/C08", E2E_NOTE),
-    "C04": ("reference-model monitor over direct-drive operation histories (random + exhaustive short sequences) comparing all public getters after every step; idle-capacity hook in full simulations",
+    "C04": ("reference-model monitor over direct-drive operation histories (random + exhaustive short sequences) comparing all public getters after every step (copies are mutated and drained like the original); idle-capacity hook in full simulations; plus the repository's own pinned tests run with this property's context-free monitors attached (vmon/suitemon.py)",
             "held on the K histories executed against Resources/Worker/WorkerPool and the e2e idle-worker checks; the 9-op/length<=4 sweep is complete, the rest sampled",
             "DESIGN.md 4/C04", "Trusted base: the instance-level occupancy model in vmon/checks/c04_ledger.py; small vectors (<=3 names x <=3 instances x quantity<=3)."),
-    "C16": ("differential monitor: EventTime operators vs integer microseconds; EventQueue histories vs a reference sorted list",
+    "C16": ("differential monitor: EventTime operators vs integer microseconds; EventQueue histories vs a reference sorted list; plus the repository's own pinned tests run with this property's context-free monitors attached (vmon/suitemon.py)",
             "held on the sampled value triples over all 9 unit pairs (|us| < 2^53, edge values) and the queue histories incl. in-place retimes",
             "DESIGN.md 4/C16", "Trusted base: Python integers; the documented ordering key (time, type value, task unique name)."),
-    "C17": ("differential monitor: Graph/TaskGraph/JobGraph routines vs brute force on enumerated and random DAGs, cyclic graphs, and graphs grown through their public mutators with every routine queried between mutations",
+    "C17": ("differential monitor: Graph/TaskGraph/JobGraph routines vs brute force on enumerated and random DAGs, cyclic graphs, and graphs grown through their public mutators with every routine queried between mutations; plus the repository's own pinned tests run with this property's context-free monitors attached (vmon/suitemon.py)",
             "complete for all DAGs on <=5 nodes (quick) / <=6 nodes (thorough) in several insertion orders, sampled beyond",
             "DESIGN.md 4/C17", "Trusted base: the brute-force reference in vmon/checks/c17_graphs.py."),
-    "C09": ("differential trace monitor: two fresh `python main.py` processes per world with different PYTHONHASHSEED, CSVs compared row by row after masking wall-clock fields",
+    "C09": ("differential trace monitor: two fresh `python main.py` processes per world with different PYTHONHASHSEED, CSVs compared row by row after masking wall-clock fields; greedy, Clockwork, planner and batching-planner worlds",
             "held on the K process pairs covering every source of randomness (deadline variance, Poisson/Gamma arrivals, conditionals, runtime variance) under deterministic policies",
             "DESIGN.md 4/C09", "One machine: hash seeds and fresh processes stand in for 'other processes and machines'. Masked: SCHEDULER_FINISHED wall-clock column, output-path flags."),
     "C13": ("oracle monitor on direct schedule() calls: independent fit check on single-worker pools with priority keys recomputed by the harness",
@@ -52,10 +52,10 @@ CLAIMED = {
     "C19": ("differential monitor: loader output vs the description kept by the generator (YAML and JSON, with and without absl flags); closed-loop in-flight census from observed events of full simulations",
             "held on the K generated descriptions over all five release policies, override flags and replication, and on the closed-loop runs",
             "DESIGN.md 4/C19", "Trusted base: the generator's description. Deadline base not judged when zero-weight jobs make the critical path's SLO sum ambiguous."),
-    "C10": ("wrapper monitor on every policy's schedule(): decision-shape checks, exact interval-packing feasibility against the shadow cluster, before/after digests of live cluster and tasks; live calls in full simulations plus shadow invocations of the other policies on the same states, in full simulations and in direct-drive chaos-policy runs",
+    "C10": ("wrapper monitor on every policy's schedule(): decision-shape checks, exact interval-packing feasibility against the shadow cluster, before/after digests of live cluster and tasks; live calls in full simulations plus shadow invocations of the other policies on the same states, in full simulations (incl. the batching modes of ILP / TetriSched-CPLEX on request bursts) and in direct-drive chaos-policy runs",
             "held on the K live and shadow schedule() calls of all eight policies on reachable states, apart from the listed known findings",
             "DESIGN.md 4/C10", E2E_NOTE + " Joint capacity is judged per resource name with the weakest reading of a running task's expected end."),
-    "C18": ("online monitor on every frontier / completion-notification / releasable call in full simulations, probe calls on a grid of lookaheads, switches and branch policies at every scheduler start, and a direct random walker over task-graph states",
+    "C18": ("online monitor on every frontier / completion-notification / releasable call in full simulations, probe calls on a grid of lookaheads, switches and branch policies at every scheduler start, and a direct random walker over task-graph states; plus the repository's own pinned tests run with this property's context-free monitors attached (vmon/suitemon.py)",
             "held on the K observed and probed frontier calls and walker steps, apart from the listed known finding",
             "DESIGN.md 4/C18", E2E_NOTE),
     "C11": ("output monitor on every ILP / TetriSched-Gurobi / Z3 decision plus adversarial re-solves on the captured solver model (feasibility of 'child placed, parent not'; minimise child start - parent finish), live and shadow calls in full simulations, direct Z3 calls",
